@@ -535,7 +535,7 @@ func (p *Program) ownSimilarity(fn *types.Func, own map[string]bool) float64 {
 		}
 	}
 	if union == 0 {
-		return 0
+		return 1 // neither calls an unexported function of the package: as alike as this measure can tell
 	}
 	return float64(inter) / float64(union)
 }
